@@ -1195,7 +1195,9 @@ def run(ctx):
                        "Each pair: regexp-matches and regexp-search vs the verified matcher (boolean, span 0, leftmost-longest for greedy SREs) and "
                        "all reported spans through the verified validator check_spans; for greedy SREs also regexp-fold, "
                        "regexp-extract, regexp-split, regexp-partition, regexp-replace, regexp-replace-all vs the proved fold_spans. Distinct by (SRE, string); non-trivial when the SRE has an "
-                       "operator and the string is non-empty")
+                       "operator and the string is non-empty. ENGINE level: for every generated SRE the compiled state graph (read through the module environment) "
+                       "vs compile_top of coq/C20/Nfa.v state for state, and for 2 (thorough 4) subjects per SRE the searchers and the accept after every character of "
+                       "regexp-advance! vs loop_tr, for regexp-search and regexp-matches")
     ctx.coq_obligations("Properties_C20")
     d = ctx.build("default")
     exe = ctx.extract("C20")
@@ -1330,6 +1332,11 @@ def run(ctx):
                "validity and, for regexp-matches, that it covers the string); the regexp-fold family only for SREs without non-greedy operators; empty matches of regexp-fold "
                "are compared as the repaired code produces them")
     ctx.trust("harness/c20_driver.scm (reads cases, prints spans), the renderers proto()/scm() in props/C20.py that print one SRE in the model's and in Scheme's syntax")
+    ctx.trust("engine stage: xproto() (prints the surface form of an SRE exactly as scm() prints it for chibi), canon_graph()/canon_trace() (the same depth-first "
+              "renumbering applied to both sides), the graph / trace dumpers of harness/c20_driver.scm (state accessors and a wrapper around posse-for-each installed "
+              "through the module environment of (chibi regexp)); char-set states are compared on a finite alphabet per SRE")
+    ctx.assume("engine stage: the order in which regexp-advance! walks a posse is hash-table order (regexp.scm:495); the vectors kept can depend on it, so the model replays "
+               "the order observed in the running code (coq/C20/NfaOrd.v); state-ids are not compared (debugging only), graphs are compared up to depth-first renumbering")
 
 
 def replay(ctx, data):
